@@ -160,6 +160,52 @@ Theorem C08_no_fire_after_close : forall tick start pre post,
 Proof. exact no_fire_after_close. Qed.
 Print Assumptions C08_no_fire_after_close.
 
+(* ======================================================================================
+   actor part: MV.C08.ActorModel — one actor (no children) whose context owns a scheduler (tick 10 ms); timer callbacks
+   are posted to the owner as system messages and executed as turns of their own; every turn is bracketed by
+   StopTask(":idle:") / AfterTask(":idle:"); restart clears the scheduler, termination closes it.
+   [arun (new_actor start) ops] performs a history of ASpawn / AMsg (handler that registers, stops, blocks) / AFail
+   (supervised restart) / AStopOp (termination) / AAdvance (time passes); [a_events] are the executed callbacks.
+   ====================================================================================== *)
+From MV Require Import C08.ActorModel C08.ActorProofs.
+
+(* Timers never fire after the actor has terminated, and a terminated actor stays terminated: in every reachable state
+   in which the actor is not alive, whatever happens next (messages, failures, stop requests, any amount of time) no
+   callback is executed.  (Callbacks that were already in the mailbox when it terminated are dropped: [a_queue] is
+   emptied by terminate_flow, as ProcessSystemMessage does for a terminated actor.) *)
+Theorem C08_not_after_terminated : forall start ops1 ops2, 0 <= start ->
+  let a1 := arun (new_actor start) ops1 in
+  a_alive a1 = false -> Forall no_spawn ops2 ->
+  a_events (arun a1 ops2) = a_events a1 /\ a_alive (arun a1 ops2) = false /\ a_term (arun a1 ops2) = a_term a1.
+Proof. exact not_after_terminated. Qed.
+Print Assumptions C08_not_after_terminated.
+
+(* The timers die with the actor: once an actor that ever registered a timer (or has an idle deadline / expiry) has
+   terminated — by a stop request, by shutdown, by its idle deadline or by its expiry — its timing wheel is stopped. *)
+Theorem C08_terminated_scheduler_closed : forall start ops, 0 <= start ->
+  let a := arun (new_actor start) ops in
+  a_alive a = false -> (0 < nins (a_s a))%nat -> s_stopped (a_s a) = true.
+Proof. exact terminated_scheduler_closed. Qed.
+Print Assumptions C08_terminated_scheduler_closed.
+
+(* Idle deadline and expiry terminate the actor only once due.  The actor goes away on its own only when the callback
+   of its ":idle:" or ":expire:" task is processed; these tasks are timers of the scheduler model, and in EVERY reachable
+   state: the pending ":idle:" timer (if any) expires exactly one idle deadline (at least a tick) after [a_last], the
+   instant at which the latest turn of the actor ended (every message, callback and lifecycle turn stops it when it
+   begins and re-arms it when it ends) — its wheel bucket starts less than one tick + 1 ms before that; the pending
+   ":expire:" timer expires at or after expireTime (creation + expire duration, not reset by restarts). *)
+Theorem C08_idle_expire_only_when_due : forall start ops, 0 <= start ->
+  let a := arun (new_actor start) ops in
+  let s := a_s a in
+  forall i e, (i < nins s)%nat -> t_kill (inst s i) = false -> t_pend (inst s i) = Some e ->
+    (t_name (inst s i) = N_IDLE ->
+       0 < a_idle a /\ a_last a <= now a /\ e = to_ms (a_last a + clampd (a_idle a) ACTOR_TICK) /\
+       a_last a + clampd (a_idle a) ACTOR_TICK - ACTOR_TICK - MS < trunc e (tick_ms s) * MS) /\
+    (t_name (inst s i) = N_EXPIRE ->
+       to_ms (a_expire_at a) <= e /\ a_expire_at a - ACTOR_TICK - MS < trunc e (tick_ms s) * MS).
+Proof. exact deadline_only_when_due. Qed.
+Print Assumptions C08_idle_expire_only_when_due.
+
 (* ---------------------------------------------------------------- non-vacuity *)
 
 Definition t0 : Z := 946684800000000000.   (* 2000-01-01T00:00:00Z in ns *)
@@ -188,7 +234,7 @@ Example C08_example_exactly_N_hyps :
 Proof.
   cbv zeta. splits.
   - cbn. splits; auto; intros; discriminate.
-  - intros H. vm_compute in H. repeat (destruct H as [H|H]; [discriminate|]). exact H.
+  - apply fuel_okb_ok. vm_compute. reflexivity.
   - reflexivity.
   - repeat constructor; cbn; discriminate.
   - vm_compute. reflexivity.
@@ -214,3 +260,35 @@ Example C08_example_as_shipped :
                  {| e_ms := 946684800020; e_inst := 0; e_ord := 2; e_crash := false |}];
      ORes true []; ONames [0%nat]].
 Proof. vm_compute. reflexivity. Qed.
+
+(* an actor with a forever-repeating task is stopped while its OnTerminate handler blocks for 30 ms: the three firings
+   that become due meanwhile are dropped, nothing runs afterwards *)
+Example C08_example_actor_terminates :
+  let a := arun (new_actor t0)
+             [AAdvance (t0 + 2000000); ASpawn 0 0; AAdvance (t0 + 12000000);
+              AMsg [AReg 0 1 (SRepeat 10000000 10000000 (-1)) []] 0 []; AAdvance (t0 + 45000000);
+              AStopOp false 30000000 0; AAdvance (t0 + 500000000)] in
+  a_alive a = false /\ s_stopped (a_s a) = true /\ a_term a = Some 946684800075 /\
+  rev (a_events a) = [{| ae_ms := 946684800020; ae_tag := 1%nat; ae_ord := 1 |};
+                      {| ae_ms := 946684800030; ae_tag := 1%nat; ae_ord := 2 |};
+                      {| ae_ms := 946684800040; ae_tag := 1%nat; ae_ord := 3 |}].
+Proof. vm_compute. repeat split. Qed.
+
+(* idle deadline 50 ms: each callback turn re-arms it; after the last of 2 firings the actor goes away on its own *)
+Example C08_example_actor_idle :
+  let a := arun (new_actor t0)
+             [AAdvance (t0 + 2000000); ASpawn 50000000 0; AAdvance (t0 + 12000000);
+              AMsg [AReg 0 1 (SRepeat 20000000 40000000 2) []] 0 []; AAdvance (t0 + 500000000)] in
+  a_alive a = false /\ a_term a = Some 946684800120 /\ a_racy a = None /\
+  rev (a_events a) = [{| ae_ms := 946684800030; ae_tag := 1%nat; ae_ord := 1 |};
+                      {| ae_ms := 946684800070; ae_tag := 1%nat; ae_ord := 2 |}].
+Proof. vm_compute. repeat split. Qed.
+
+(* a reachable state with both deadline timers pending: idle 50 ms re-armed at the end of the message turn at +12 ms,
+   expiry 300 ms after the creation at +2 ms *)
+Example C08_example_deadlines_pending :
+  let a := arun (new_actor t0) [AAdvance (t0 + 2000000); ASpawn 50000000 300000000; AAdvance (t0 + 12000000); AMsg [] 0 []] in
+  a_last a = t0 + 12000000 /\ a_expire_at a = t0 + 302000000 /\
+  map (fun t => (t_name t, t_kill t, t_pend t)) (filter (fun t => negb (t_kill t)) (s_insts (a_s a)))
+  = [(N_EXPIRE, false, Some 946684800302); (N_IDLE, false, Some 946684800062)].
+Proof. vm_compute. repeat split. Qed.
